@@ -189,6 +189,9 @@ def run(ctx):
     from . import c10 as _c10
     _c10.subsume_guard(ctx, "C03-R6")
     _c10.subsume_operands(ctx, "C03-R6")
+    # R7: after token healing the mask is computed for the bytes given back; if that count is wrong every allowed token is
+    # rejected on commit (dead end) — adopted from C13-R6
+    ctx.import_clauses("c13", "C13-R6", ["chop_tokens:"], "C03-R7")
 
     # ------------------------------------------------------------------ R3 empty mask => stop
     cm = ctx.body(TP + "::compute_mask_inner")
